@@ -857,12 +857,123 @@ def raise_inventory(ctx, rule: str):
         if not returns_false:
             ok = False
             det = "the handler in is_valid does not return False"
+        extra = [s for s in h.body if not isinstance(s, (ast.Return, ast.Pass)) and not (isinstance(s, ast.Expr) and isinstance(s.value, ast.Constant))]
+        if extra:
+            ok = False
+            det = "the handler in is_valid does more than return False: `%s`" % re.sub(r"\s+", " ", iv.module.segment(extra[0]) or "")[:80]
     r.ob(rule + ".is-valid-handler", iv.qualname, ok, det, iv.where())
     # no is_valid override in kits that bypasses it
     for kc in ctx.inventory:
         o, raw = p.class_attr_def(kc.ci, "is_valid")
         if raw is not iv:
             r.ob(rule + ".is-valid-handler", kc.name + ".is_valid", False, "is_valid is overridden outside StructuredRecord", kc.ci.where())
+
+
+def call_arity_rule(ctx, rule: str, scope=("moclo.core", "moclo.regex", "moclo.record", "moclo.errors", "moclo.registry.base")):
+    """Every construction of a repo class (exceptions above all) binds to the
+    signature of the __init__ it resolves to: a missing or surplus argument is
+    a TypeError at the very moment the error should have been reported."""
+    p = ctx.program
+    r = ctx.report
+    n = 0
+    for mn, m in sorted(p.modules.items()):
+        if not any(mn == s or mn.startswith(s + ".") for s in scope):
+            continue
+        funcs = list(m.functions.values())
+        for ci in m.classes.values():
+            funcs += [v for v in ci.attrs.values() if isinstance(v, FuncInfo)]
+        for fi in funcs:
+            for node in ast.walk(fi.node):
+                if not isinstance(node, ast.Call):
+                    continue
+                if isinstance(node.func, ast.Name) and node.func.id in [a.arg for a in fi.node.args.args]:
+                    continue
+                root, _ = chain_of(node.func)
+                if root in [a.arg for a in fi.node.args.args]:
+                    continue
+                tgt = p.resolve_expr(fi.module, node.func) if isinstance(node.func, (ast.Name, ast.Attribute)) else None
+                if not isinstance(tgt, ClassInfo):
+                    continue
+                owner, init = p.class_attr_def(tgt, "__init__")
+                if not isinstance(init, FuncInfo):
+                    continue
+                if any(isinstance(a, ast.Starred) for a in node.args) or any(k.arg is None for k in node.keywords):
+                    continue
+                a = init.node.args
+                params = [x.arg for x in a.posonlyargs + a.args][1:]
+                ndef = len(a.defaults)
+                required = params[: len(params) - ndef] if ndef else list(params)
+                kwonly_req = [k.arg for k, d in zip(a.kwonlyargs, a.kw_defaults) if d is None]
+                given_kw = {k.arg for k in node.keywords}
+                npos = len(node.args)
+                why = None
+                if npos > len(params) and a.vararg is None:
+                    why = "%d positional argument(s) for %d parameter(s)" % (npos, len(params))
+                missing = [q for i, q in enumerate(required) if i >= npos and q not in given_kw] + [q for q in kwonly_req if q not in given_kw]
+                if missing and why is None:
+                    why = "missing required argument(s) %s" % missing
+                unknown = [k for k in given_kw if k not in params and k not in [x.arg for x in a.kwonlyargs] and a.kwarg is None]
+                if unknown and why is None:
+                    why = "unexpected keyword(s) %s" % unknown
+                n += 1
+                r.ob(rule, "%s@%s" % (fi.qualname, _norm_stmt(fi.module.segment(node))), why is None,
+                     "`%s` does not fit %s%s: %s (TypeError at run time)" % (re.sub(r"\s+", " ", fi.module.segment(node) or "")[:80], init.qualname,
+                                                                           ast.unparse(init.node.args) and "(" + ast.unparse(init.node.args) + ")", why),
+                     "%s:%d" % (m.relpath, node.lineno))
+    r.analysed["repo_class_constructions_checked"] = n
+    r.floor(rule, 8)
+
+
+def match_slot_rule(ctx, rule: str):
+    """The cached structure match: (1) nobody assigns the `_match` slot -- a
+    memoised None or stale value is later dereferenced by the accessors;
+    (2) a `_match` that chains to super()._match must be cached per descriptor
+    (property_cached) or not at all: functools.cached_property stores under the
+    attribute *name* in the instance dict, so the base class's value is cached
+    before the subclass's screen runs and the second access skips the screen."""
+    p = ctx.program
+    r = ctx.report
+    n = 0
+    for mn, m in sorted(p.modules.items()):
+        if not mn.startswith("moclo.core") and not mn.startswith("moclo.kits"):
+            continue
+        for node in ast.walk(m.tree):
+            tgts = []
+            if isinstance(node, ast.Assign):
+                tgts = node.targets
+            elif isinstance(node, (ast.AugAssign, ast.AnnAssign)):
+                tgts = [node.target]
+            elif isinstance(node, ast.Delete):
+                tgts = node.targets
+            for t in tgts:
+                if isinstance(t, ast.Attribute) and t.attr == "_match":
+                    r.ob(rule + ".slot-store", "%s@%s" % (mn, _norm_stmt(m.segment(node))), False,
+                         "`%s` writes the cached match slot: the accessors read self._match and expect a match or InvalidSequence, nothing else" % re.sub(r"\s+", " ", m.segment(node) or "")[:80],
+                         "%s:%d" % (m.relpath, node.lineno))
+            if isinstance(node, ast.Call) and isinstance(node.func, ast.Name) and node.func.id == "setattr" and len(node.args) >= 2 \
+                    and isinstance(node.args[1], ast.Constant) and node.args[1].value == "_match":
+                r.ob(rule + ".slot-store", "%s@setattr" % mn, False, "setattr(..., '_match', ...) writes the cached match slot", "%s:%d" % (m.relpath, node.lineno))
+    for ci in p.all_classes():
+        raw = ci.attrs.get("_match")
+        if not isinstance(raw, FuncInfo):
+            continue
+        n += 1
+        chains = any(isinstance(x, ast.Attribute) and x.attr == "_match" and isinstance(x.value, ast.Call) and isinstance(x.value.func, ast.Name) and x.value.func.id == "super"
+                     for x in ast.walk(raw.node))
+        kinds = []
+        for d in raw.node.decorator_list:
+            b = p.resolve_expr(raw.module, d.func if isinstance(d, ast.Call) else d)
+            kinds.append(b.dotted if isinstance(b, Ext) else getattr(b, "qualname", repr(b)))
+        overridden = any(isinstance(c.attrs.get("_match"), FuncInfo) for c in p.subclasses(ci))
+        bad = [k for k in kinds if k in ("functools.cached_property",)]
+        ok = not (bad and (chains or overridden))
+        r.ob(rule + ".descriptor-kind", raw.qualname, ok,
+             "%s is cached with %s while the _match chain goes through super(): that decorator stores the value in the instance dict under the name `_match`, so the base class's match is cached before the subclass's illegal-site screen runs and a second access returns it unscreened"
+             % (raw.qualname, bad), raw.where())
+        known = [k for k in kinds if k in ("property_cached.cached_property", "builtins.property", "functools.cached_property")]
+        r.ob(rule + ".descriptor-kind", raw.qualname + "#known", bool(known) and len(kinds) == 1,
+             "_match is decorated with %s; only property_cached.cached_property / property are known to keep one value per (descriptor, instance)" % kinds, raw.where())
+    r.floor(rule + ".descriptor-kind", 6)
 
 
 BUILTIN_TYPES = {"list": list, "dict": dict, "str": str, "tuple": tuple, "set": set}
